@@ -13,6 +13,7 @@ CONSTANTS
   GenNoFaults = FALSE
   GenHold = 0
   MaxPhantom = 0
+  AddrKinds = {"real"}
 SPECIFICATION Spec
 INVARIANTS ReleasedAtMostOnce
 CHECK_DEADLOCK FALSE
